@@ -29,10 +29,10 @@ def NarrowKeeps (tbl : ClassTable) (T : BoolTable) : Prop :=
 
 /-- **C02 outside the exception classes.** For all tables satisfying `narrowLaws`, every flat value
 `V`, every condition kind (isinstance, issubclass, is / is not, == / !=, in / not in, truthiness,
-`len` comparisons, TypeIs, TypeGuard, class pattern, assert_is_instance, assert_is), both polarities
+`len` comparisons in both operand orders, TypeIs, TypeGuard, class pattern, assert_is_instance, assert_is), both polarities
 and every object `o ∈ V` on which the test is defined (`condOk`): if the test evaluates to `pol` on
 `o` and the input is in none of the exception classes (`d02 … = []`: `noIntersection`, `promote`,
-`acceptsNonMember`, `literalInexact`, `alwaysTrueWrong`, `promoteIsValue`; on the live tables
+`acceptsNonMember`, `literalInexact`, `alwaysTrueWrong`, `promoteIsValue`, `reversedLenCompare`; on the live tables
 `alwaysTrueWrong` is empty, see `alwaysTrueWrong_absent_live`), then `o` belongs to the narrowed type
 of the branch taken. No bound on the size of `V`, of the literals or of the object. -/
 theorem narrow_keeps_partial (tbl : ClassTable) (T : BoolTable) (hL : narrowLaws tbl T = true)
@@ -108,6 +108,131 @@ theorem always_false_sound (tbl : ClassTable) (T : BoolTable) (hL : narrowLaws t
     (hm : mem tbl o V = true) : truthy o = false :=
   always_false_core (nlaws_of tbl T hL) hb hm
 
+/-! ## Singleton patterns (`case None` / `case True` / `case False`) and `is` tests
+
+A singleton pattern is an *identity* test: the `==`/`!=` exemption of the property's quantifier does
+not apply to it (`condOk` only asks that the literal is a singleton). -/
+
+/-- **The negated branch of an identity test is sound at full strength**: for every value and every
+object of it that is not the singleton, the object stays in the type inferred for `x is not l` /
+for the cases after `case l:` — whatever `==`-equal literals of other types (`1` vs `True`, `0` vs
+`False`) the value contains. No exception class. -/
+theorem singleton_neg_keeps (tbl : ClassTable) (T : BoolTable) (hL : narrowLaws tbl T = true)
+    (V : Ty) (l o : Obj) (hV : valueOk V = true) (hs : isSingleton tbl l = true)
+    (hw : l.wf tbl = true) (ho : objOk tbl T o = true)
+    (hm : mem tbl o V = true) (hh : Obj.same o l = false) :
+    mem tbl o (narrow tbl T V (.is l) false) = true := by
+  apply narrow_keeps_partial tbl T hL V (.is l) false o hV _ hw ho _ hm (by simpa [holds] using hh)
+  · simpa [condOk, Cond.literals] using hs
+  · simp [d02, dCond, dK, Cond.kAt, Cond.k, K.invert]
+
+/-- **The positive branch of an identity test** keeps the singleton unless a non-literal member that
+contains it does not accept it (class `literalInexact`, the only exception). -/
+theorem singleton_pos_keeps (tbl : ClassTable) (T : BoolTable) (hL : narrowLaws tbl T = true)
+    (V : Ty) (l : Obj) (hV : valueOk V = true) (hs : isSingleton tbl l = true)
+    (hw : l.wf tbl = true) (ho : objOk tbl T l = true)
+    (hD : d02 tbl T V (.is l) true l = []) (hm : mem tbl l V = true) :
+    mem tbl l (narrow tbl T V (.is l) true) = true := by
+  apply narrow_keeps_partial tbl T hL V (.is l) true l hV _ hw ho hD hm (by simp [holds, Obj.same_refl])
+  simpa [condOk, Cond.literals] using hs
+
+/-- **Whole `match` statements with singleton patterns**: for every statement whose patterns are
+`None` / `True` / `False` / `_` (any number, any order), every subject type whose non-literal members
+accept the singleton literals they contain (`singOk`, the absence of `literalInexact` for these three
+literals) and every object of it: the object belongs to the type inferred for the subject in the body
+of the case that really runs, or on the fall-through path if no case matches
+(`firstMatch` = CPython's identity semantics: `1` does not match `case True`). -/
+theorem match_singletons_sound (tbl : ClassTable) (T : BoolTable) (hL : narrowLaws tbl T = true)
+    (V : Ty) (ps : List Pat) (o : Obj) (hp : singlePats ps = true) (hV : singOk tbl V = true)
+    (ho : objOk tbl T o = true) (hm : mem tbl o V = true) :
+    mem tbl o (matchBody tbl T V ps (firstMatch tbl ps o)) = true :=
+  match_singletons_core (nlaws_of tbl T hL) hp hV ho hm
+
+/-- The model distinguishes identity patterns from value patterns: on `Literal[1, "a"]` the cases
+after `case True:` (identity) still contain `1`, whereas the `!=` reading — what a value pattern
+`== True` does, and what is exempted there by the quantifier — removes it. -/
+theorem singleton_is_not_value :
+    matchBody liveTable liveBool (.union [.known (.int 1), .known (.str "a")])
+      [.singleton (.bool true), .wildcard] 1 = .union [.known (.int 1), .known (.str "a")] ∧
+    matchBody liveTable liveBool (.union [.known (.int 1), .known (.str "a")])
+      [.value (.bool true), .wildcard] 1 = .known (.str "a") ∧
+    firstMatch liveTable [.singleton (.bool true), .wildcard] (.int 1) = 1 := by
+  refine ⟨?_, ?_, ?_⟩
+  · simp [matchBody, caseKs, Pat.negKs, Pat.ac, Cond.k, AC.mkAnd, spliceAnd, AC.invert, K.invert, AC.apply,
+      constrainKs, flatten1, applySeq, applyK, applyPred, unann, Obj.same, Obj.tag, unite, dedup, dictMem,
+      Ty.hashEq, Ty.beq, Obj.hashable, Obj.pyEq]
+  · simp [matchBody, caseKs, Pat.negKs, Pat.ac, Cond.k, AC.mkAnd, spliceAnd, AC.invert, K.invert, AC.apply,
+      constrainKs, flatten1, applySeq, applyK, applyPred, unann, Obj.pyEq, unite, dedup, dictMem]
+  · simp [firstMatch, Pat.matches, Obj.same, Obj.tag]
+
+/-- non-vacuity of `match_singletons_sound`: `int | None | Literal[True]` with
+`case True: … case None: … case _:` and the subject `1` (which only the wildcard takes) -/
+example : singlePats [.singleton (.bool true), .singleton .none, .wildcard] = true := by decide +kernel
+example : singOk liveTable (.union [.typed C.int, .known .none, .known (.bool true)]) = true := by
+  have h1 : liveTable.nominalK false C.int C.none = false := by decide +kernel
+  have h2 : liveTable.issub C.none C.int = false := by decide +kernel
+  have h3 : liveTable.nominalK false C.int C.bool = true := by decide +kernel
+  have h4 : sub liveTable C.none C.int = false := by decide +kernel
+  have h5 : sub liveTable C.bool C.int = true := by decide +kernel
+  simp [singOk, flatten1, singOkM, unann, singles, mem, clsOf, ca, typedCA, h1, h2, h3, h4, h5]
+example : firstMatch liveTable [.singleton (.bool true), .singleton .none, .wildcard] (.int 1) = 2 := by
+  simp [firstMatch, Pat.matches, Obj.same, Obj.tag]
+
+/-! ## Comparisons with the literal on the left: `n <op> len(x)` -/
+
+/-- `liveBool` with the regenerated flag `lenRevMirrored` set to `b` -/
+def liveBoolWith (b : Bool) : BoolTable := { liveBool with lenRevMirrored := b }
+
+theorem liveBool_eq : liveBool = liveBoolWith liveBool.lenRevMirrored := rfl
+
+/-- `tuple[int] | tuple[int, int, int]` -/
+def exLenV : Ty := .union [.seq C.tuple [.typed C.int], .seq C.tuple [.typed C.int, .typed C.int, .typed C.int]]
+
+/-- class `reversedLenCompare` (the code as long as it does not mirror the operator): `2 < len(x)`
+is true for `(1, 1, 1)`, but the if branch is inferred `tuple[int]` — the constraint is the one of
+`len(x) < 2`. -/
+theorem reversedLen_witness :
+    mem liveTable (.tuple [.int 1, .int 1, .int 1]) exLenV = true ∧
+    holds liveTable (.lenRev .lt 2) (.tuple [.int 1, .int 1, .int 1]) = true ∧
+    narrow liveTable (liveBoolWith false) exLenV (.lenRev .lt 2) true = .seq C.tuple [.typed C.int] ∧
+    d02 liveTable (liveBoolWith false) exLenV (.lenRev .lt 2) true (.tuple [.int 1, .int 1, .int 1])
+      = ["reversedLenCompare"] := by
+  have h1 : sub liveTable C.tuple C.tuple = true := by decide +kernel
+  have h2 : sub liveTable C.int C.int = true := by decide +kernel
+  have h3 : (liveBoolWith false).isMutable C.tuple = false := by decide +kernel
+  have hm : mem liveTable (.tuple [.int 1, .int 1, .int 1]) exLenV = true := by
+    simp [exLenV, mem, memAny, memSeq, matchSeq, clsOf, h1, h2]
+  have h4 : (liveBoolWith false).lenRevMirrored = false := rfl
+  refine ⟨hm, by simp [holds, objLen, CmpOp.eval], ?_, ?_⟩
+  · simp [narrow, exLenV, Cond.k, h3, h4, constrainKs, flatten1, applySeq, applyK, applyPred, lenOfValue,
+      hasManyMember, CmpOp.eval, unite, dedup, dictMem]
+  · simp [d02, dCond, objLen, CmpOp.eval, h4, exLenV, flatten1, mem, memSeq, matchSeq, clsOf, h1, h2, dK,
+      Cond.kAt, Cond.k]
+
+/-- … and the behaviour once the operator is mirrored (`Lt ↔ Gt`, `LtE ↔ GtE`): the if branch is
+`tuple[int, int, int]` and the input is in no exception class. -/
+theorem reversedLen_fixed :
+    narrow liveTable (liveBoolWith true) exLenV (.lenRev .lt 2) true
+      = .seq C.tuple [.typed C.int, .typed C.int, .typed C.int] ∧
+    d02 liveTable (liveBoolWith true) exLenV (.lenRev .lt 2) true (.tuple [.int 1, .int 1, .int 1]) = [] := by
+  have h1 : sub liveTable C.tuple C.tuple = true := by decide +kernel
+  have h2 : sub liveTable C.int C.int = true := by decide +kernel
+  have h3 : (liveBoolWith true).isMutable C.tuple = false := by decide +kernel
+  have h4 : (liveBoolWith true).lenRevMirrored = true := rfl
+  refine ⟨?_, ?_⟩
+  · simp [narrow, exLenV, Cond.k, h3, h4, CmpOp.mirror, constrainKs, flatten1, applySeq, applyK, applyPred,
+      lenOfValue, hasManyMember, CmpOp.eval, unite, dedup, dictMem]
+  · simp [d02, dCond, objLen, h4, exLenV, flatten1, mem, memSeq, matchSeq, clsOf, h1, h2, dK,
+      Cond.kAt, Cond.k]
+
+/-- On tables whose code mirrors the operator the class `reversedLenCompare` is empty (so
+`narrow_keeps_partial` needs no exception for comparisons with the literal on the left). -/
+theorem reversedLen_absent (T : BoolTable) (h : T.lenRevMirrored = true) (c : Cond) (o : Obj) :
+    dCond T c o = [] := by
+  unfold dCond
+  cases c <;> simp only [h, Bool.not_true, Bool.false_and, Bool.false_eq_true, if_false]
+  split <;> rfl
+
 /-! ## Constraint algebra -/
 
 /-- inverting a concrete constraint twice gives it back -/
@@ -158,7 +283,7 @@ theorem promote_witness :
   refine ⟨by simp [mem, clsOf, h2], by simp [holds, clsOf, h4], ?_, ?_⟩
   · simp [narrow, constrainKs, Cond.k, K.invert, flatten1, applySeq, applyK, applyPred, unite, dedup,
       dictMem, unann, ca, typedCA, typOf, univAssignable, h1, Ty.never]
-  · simp [d02, flatten1, mem, clsOf, h2, h3, dK, Cond.kAt, Cond.k, K.invert, tested, unite, dedup, dictMem,
+  · simp [d02, dCond, flatten1, mem, clsOf, h2, h3, dK, Cond.kAt, Cond.k, K.invert, tested, unite, dedup, dictMem,
       unann, ca, typedCA, typOf, univAssignable, h1]
 
 /-- class `noIntersection`: `x: B`, `isinstance(x, Cc)` is true for an instance of `D(B, Cc)`, but
@@ -175,7 +300,7 @@ theorem noIntersection_witness :
   refine ⟨by simp [mem, clsOf, h3], by simp [holds, clsOf, h4], ?_, ?_⟩
   · simp [narrow, constrainKs, Cond.k, flatten1, applySeq, applyK, applyPred, unite, dedup, dictMem,
       unann, ca, typedCA, typOf, overlapping, deliteral, h1, h2, Ty.never]
-  · simp [d02, flatten1, mem, clsOf, h3, dK, Cond.kAt, Cond.k, unite, dedup, dictMem,
+  · simp [d02, dCond, flatten1, mem, clsOf, h3, dK, Cond.kAt, Cond.k, unite, dedup, dictMem,
       unann, ca, typedCA, typOf, overlapping, deliteral, h1, h2]
 
 /-- class `acceptsNonMember`: `x: object`, `isinstance(x, Hashable)` is false for `[]`, but
@@ -193,7 +318,7 @@ theorem acceptsNonMember_witness :
   refine ⟨by simp [mem, clsOf, h2], by simp [holds, clsOf, h4], ?_, ?_⟩
   · simp [narrow, constrainKs, Cond.k, K.invert, flatten1, applySeq, applyK, applyPred, unite, dedup,
       dictMem, unann, ca, typedCA, typOf, univAssignable, h1, Ty.never]
-  · simp [d02, flatten1, mem, clsOf, h2, h3, dK, Cond.kAt, Cond.k, K.invert, tested, unite, dedup, dictMem,
+  · simp [d02, dCond, flatten1, mem, clsOf, h2, h3, dK, Cond.kAt, Cond.k, K.invert, tested, unite, dedup, dictMem,
       unann, ca, typedCA, typOf, univAssignable, h1]
 
 /-- class `literalInexact` (the C03 finding `variadicTuple` seen through narrowing):
@@ -213,7 +338,7 @@ theorem literalInexact_witness :
     simp [mem, memSeq, matchSeq, clsOf, h2, h3, h4]
   refine ⟨hm, by simp [holds, Obj.pyEq, Obj.pyEqList], ?_, ?_⟩
   · simp [narrow, constrainKs, Cond.k, flatten1, applySeq, applyK, applyPred, unann, ca, caZipK, Ty.never]
-  · simp [d02, flatten1, hm, dK, Cond.kAt, Cond.k, unann, ca, caZipK]
+  · simp [d02, dCond, flatten1, hm, dK, Cond.kAt, Cond.k, unann, ca, caZipK]
 
 /-- Regression witness of the repaired class `alwaysTrueWrong` (/repo c376956): `x: Hashable` is now
 boolable, `0` is hashable and falsy, and the `not x` branch keeps `Hashable`. (Before the repair the
@@ -231,7 +356,7 @@ theorem alwaysTrueWrong_fixed :
   · simp [getBool, unannAll, boolNoMvv, h1]
   · simp [narrow, constrainKs, Cond.k, K.invert, flatten1, applySeq, applyK, unann, getBool, unannAll,
       boolNoMvv, h1, Boolab.safelyTrue, unite, dedup, dictMem]
-  · simp [d02, flatten1, mem, clsOf, h2, dK, Cond.kAt, Cond.k, K.invert, unann, getBool, unannAll,
+  · simp [d02, dCond, flatten1, mem, clsOf, h2, dK, Cond.kAt, Cond.k, K.invert, unann, getBool, unannAll,
       boolNoMvv, h1, Boolab.safelyTrue]
 
 /-- class `promoteIsValue`: `x: float`, `assert_is(x, True)`: `True` is a `float` by promotion, but
@@ -245,7 +370,7 @@ theorem promoteIsValue_witness :
   have h2 : sub liveTable C.bool C.float = true := by decide +kernel
   refine ⟨by simp [mem, clsOf, h2], by simp [holds, Obj.same, Obj.pyEq], ?_, ?_⟩
   · simp [narrow, constrainKs, Cond.k, flatten1, applySeq, applyK, unann, typOf?, clsOf, h1, Ty.never]
-  · simp [d02, flatten1, mem, clsOf, h2, dK, Cond.kAt, Cond.k, unann, typOf?, h1]
+  · simp [d02, dCond, flatten1, mem, clsOf, h2, dK, Cond.kAt, Cond.k, unann, typOf?, h1]
 
 /-- Hence the full statement fails on the live tables. -/
 theorem narrowKeeps_live_false : ¬ NarrowKeeps liveTable liveBool := by
@@ -280,7 +405,7 @@ theorem exV_facts :
   have h9 : sub liveTable C.int C.str = false := by decide +kernel
   have h10 : liveTable.issub C.int C.int = true := by decide +kernel
   refine ⟨by simp [exV, mem, memAny, clsOf, h8], by simp [exC, holds, clsOf, h10], ?_, ?_, ?_⟩
-  · simp [d02, exV, exC, flatten1, mem, clsOf, h8, h9, Obj.same, Obj.tag, dK, Cond.kAt, Cond.k, unite,
+  · simp [d02, dCond, exV, exC, flatten1, mem, clsOf, h8, h9, Obj.same, Obj.tag, dK, Cond.kAt, Cond.k, unite,
       dedup, dictMem, unann, ca, typedCA, typOf, overlapping, deliteral, h1]
   · simp [narrow, exV, exC, constrainKs, Cond.k, flatten1, applySeq, applyK, applyPred, unite, dedup,
       dictMem, unann, ca, typedCA, typOf, overlapping, deliteral, univAssignable, clsOf, h1, h2, h3, h4,
@@ -301,7 +426,7 @@ example : valueOk exV2 = true := by decide +kernel
 example : condOk liveTable (.len .eq 2) (.tuple [.int 1, .str "a"]) = true := by decide +kernel
 example : objOk liveTable liveBool (.tuple [.int 1, .str "a"]) = true := by decide +kernel
 example : d02 liveTable liveBool exV2 (.len .eq 2) true (.tuple [.int 1, .str "a"]) = [] := by
-  simp [d02, dK, Cond.kAt, Cond.k]
+  simp [d02, dCond, dK, Cond.kAt, Cond.k]
 
 /-- the verdict theorems are not vacuous: `tuple[int, str]` is "always true", has no leak, and
 `()`-typed values are "always false" -/
